@@ -10,8 +10,12 @@ if args and args[0] == '-j':
 ids = args or sorted(os.path.basename(os.path.dirname(p)) for p in glob.glob('/verif/seeded/*/meta.json'))
 
 
+SNAP = '/var/tmp/verif-harness-snap-%d' % os.getpid()
+subprocess.check_call(['cp', '-a', '/verif/harness', SNAP])  # the harness as it is now: edits made while the regression runs do not leak in
+
+
 def one(i):
-    r = subprocess.run(['python3', '/verif/lib/seeded.py', 'evalwt', i, 'quick'], stdout=subprocess.PIPE, stderr=subprocess.STDOUT, text=True)
+    r = subprocess.run(['python3', '/verif/lib/seeded.py', 'evalwt', i, 'quick'], env=dict(os.environ, VERIF_HARNESS=SNAP), stdout=subprocess.PIPE, stderr=subprocess.STDOUT, text=True)
     line = [l for l in r.stdout.splitlines() if l.startswith(i + ' ')]
     res = json.loads(line[-1][len(i) + 1:]) if line else {'?': {'rc': -1, 'violations': [r.stdout[-300:]]}}
     print(i, json.dumps(res), flush=True)
@@ -26,5 +30,6 @@ with ThreadPoolExecutor(j) as ex:
     out += list(ex.map(one, par))
 for i in seq:
     out.append(one(i))
+subprocess.call(['rm', '-rf', SNAP])
 missed = [i for i, r in out if not any(v['rc'] == 1 for v in r.values())]
 print('caught %d of %d; not caught: %s' % (len(out) - len(missed), len(out), ' '.join(missed)))
